@@ -179,7 +179,11 @@ def check_nested_func_def(
     cfg.analyze(def_ass_before, maybe_ass_before, inout_vars)
     captured = {
         x: (ctx.locals[x], using_bb.vars.used[x])
-        for x, using_bb in cfg.live_before[cfg.entry_bb].items()
+        # Sorted by name: the key order of the liveness result depends on the order in
+        # which the dataflow worklist was processed
+        for x, using_bb in sorted(
+            cfg.live_before[cfg.entry_bb].items(), key=lambda item: item[0]
+        )
         if x not in func_ty.input_names and x in ctx.locals
     }
 
